@@ -16,9 +16,20 @@ RULE = (
     'the first recorded error object iff raise_if_any. Non-trivial = >= 1 raising handler next to >= 1 other handler '
     'of the same event; distinct by canonical JSON.'
 )
-ASSUMPTIONS = ['virtual time', 'no firing timeouts (event_timeout=None), no stop()']
+ASSUMPTIONS = ['virtual time', 'one scenario in five has event timeouts; handlers cut off by them are not judged here (C10), handlers that raised on their own are', 'no stop()']
 
-P = Profile(raises=0.45, raise_kinds=['VE', 'custom', 'KE', 'RT', 'TO', 'TO', 'ITO', 'ITO', 'CE', 'chain', 'chain'], rets=['idx', 'idx', 'none', 'str', 'excobj'], sync=0.35, fwd=0.3, par=0.15, maxdepth=[1, 2, 3], wild=0.2, actor_ops=['disp', 'disp', 'dispany', 'sleep', 'await', 'acc', 'acc', 'yield'], max_actor_ops=6)
+from hypothesis import strategies as _st
+
+
+@_st.composite
+def _timeouts(draw):
+    # one scenario in five: a parent handler times out AFTER a child handler has already raised - the recorded error must survive
+    if draw(_st.integers(0, 4)) != 0:
+        return {}
+    return {str(t): draw(_st.sampled_from([0.13, 0.27, 0.41, 0.77])) for t in range(4) if draw(_st.booleans())}
+
+
+P = Profile(timeouts=_timeouts(), raises=0.45, raise_kinds=['VE', 'custom', 'KE', 'RT', 'TO', 'TO', 'ITO', 'ITO', 'CE', 'chain', 'chain'], rets=['idx', 'idx', 'none', 'str', 'excobj'], sync=0.35, fwd=0.3, par=0.15, maxdepth=[1, 2, 3], wild=0.2, actor_ops=['disp', 'disp', 'dispany', 'sleep', 'await', 'acc', 'acc', 'yield'], max_actor_ops=6)
 
 
 def budget(tier):
